@@ -387,6 +387,10 @@ OPS_D = _ops_dict()
 
 
 def cases(tier, seed, spec):
+    for t in (False, True):
+        for c in itertools.chain(gen.hash_twins(seed, 10 if tier == 'quick' else 60, tag='C19HASHTWIN'),
+                                 gen.crc_twins(seed, 6 if tier == 'quick' else 40, tag='C19CRCTWIN')):
+            yield dict(c, kind='twins', transposed=t)
     base = list(gen.exh(3, 3))
     base += list(gen.rnd(seed, 60 if tier == 'quick' else 600, 6, 6, tag='C19'))
     names_t, names_d = sorted(OPS_T), sorted(OPS_D)
@@ -410,8 +414,47 @@ def cases(tier, seed, spec):
             yield {'kind': 'dict', 'table': c, 'ops': [a, b], 'salt': k, 'with_lattice': (k + len(a)) % 3 == 0}
 
 
+def run_twins(concepts, case, spec):
+    """Two well-formed tables over the same labels that a cheap fingerprint cannot tell apart (rows congruent
+    modulo 2**61 - 1 = equal ``hash()``; equal CRC-32 of the table text), both transposed too, accepted one
+    after the other and alive together: each context must keep reproducing its own input."""
+    Context = concepts.Context
+    o, p = list(case['objects']), list(case['properties'])
+    m = len(p)
+    tabs = [[[bool(r >> j & 1) for j in range(m)] for r in rs] for rs in (case['rows'], case['twin_rows'])]
+    if case.get('transposed'):
+        o, p = p, o
+        tabs = [[list(col) for col in zip(*t)] for t in tabs]
+    live = []
+    for k in (0, 1, 0, 1):
+        args = (o, p, tabs[k]) if k == 0 or not live else (tuple(o), tuple(p), [tuple(r) for r in tabs[k]])
+        c = call(Context, *args)
+        if c is RAISED:
+            continue
+        live.append((c, k))
+        d = call(c.todict, True)
+        if d is not RAISED:
+            c2 = call(Context.fromdict, copy.deepcopy(d))
+            if c2 is not RAISED:
+                live.append((c2, k))
+        cp = call(c.copy)
+        if cp is not RAISED:
+            live.append((cp, k))
+    for c, k in live:
+        with core.monitor_code():
+            ok, err = _represented(c, o, p, tabs[k])
+        COL.count('twin_contexts_rejudged_after_their_twin_was_accepted')
+        if not ok:
+            COL.violation('driver', 'representation:context-shows-the-table-of-a-twin-accepted-before-or-after-it',
+                          [o[:6], p[:6], 'table %d' % k], err or 'bools differ')
+            break
+    COL.nontrivial('twins', case['fam'], bool(case.get('transposed')), tuple(case['rows']))
+
+
 def run_case(concepts, case, spec):
     Context = concepts.Context
+    if case.get('kind') == 'twins':
+        return run_twins(concepts, case, spec)
     c = case['table']
     rng = random.Random(f"{spec['seed']}/{case.get('salt')}/{case.get('ops')}")
     objects, properties = list(c['objects']), list(c['properties'])
